@@ -236,6 +236,12 @@ def _exts(b):
     return kids
 
 
+# handshake type -> candidate layouts.  ClientKeyExchange: ECDHE point<1> (TLS 1.2) or encrypted pre-master secret<2> (TLCP); ServerKeyExchange: signature<2> (TLCP)
+# or curve_type+named_curve, point<1>, [algorithm], signature<2> (TLS 1.2); CertificateVerify: [algorithm] signature<2>; CertificateRequest: types<1> [algorithms<2>]
+# names<2> (TLS 1.2 / TLCP) or context<1> extensions<2> (TLS 1.3); Finished: verify_data; ServerHelloDone: empty; NewSessionTicket (TLS 1.3)
+_LAYOUTS = {16: [[1], [2]], 12: [[2], [-3, 1, -2, 2], [-3, 1, 2]], 15: [[2], [-2, 2]], 13: [[1, 2, 2], [1, 2]], 20: [[-99]], 14: [[-99]], 4: [[-4, -4, 1, 2, 2]]}
+
+
 def parse_tls(rec):
     """record -> VNode tree, or None when the layout is not one of the handled handshake messages"""
     try:
@@ -281,6 +287,24 @@ def parse_tls(rec):
             ex, off2 = _vec(hb, 0, 2)
             if off2 != len(hb): return None
             fields.append(VNode(2, None, _exts(ex)))
+        elif ht in _LAYOUTS:                         # short messages: the first layout (fixed octets / length-prefixed vectors) that consumes the body exactly
+            for layout in _LAYOUTS[ht]:
+                try:
+                    fs, off = [], 0
+                    for pre in layout:
+                        if pre < 0:                  # -k: k fixed octets; -99: all the rest
+                            k = len(hb) - off if pre == -99 else -pre
+                            if off + k > len(hb): raise ValueError("fixed")
+                            fs.append(VNode(0, bytes(hb[off:off + k]))); off += k
+                        else:
+                            v, off = _vec(hb, off, pre); fs.append(VNode(pre, bytes(v)))
+                    if off == len(hb):
+                        fields = fs
+                        break
+                except (ValueError, IndexError):
+                    continue
+            else:
+                return None
         else:
             return None
         hs = VNode(0, None, [VNode(0, bytes([ht])), VNode(3, None, fields)])
